@@ -613,3 +613,32 @@ func (m *Monitor) AliveSessions() []int {
 	}
 	return out
 }
+
+// Holds reports whether session p currently holds a subscription, a
+// registration, a testament or a pending call in either role.
+func (m *Monitor) Holds(p int) bool {
+	ss := m.Sess[p]
+	if ss == nil || !ss.Alive {
+		return false
+	}
+	if len(ss.Testament) > 0 {
+		return true
+	}
+	rl := m.Realms[ss.Realm]
+	for _, sub := range rl.Subs {
+		if sub.Holders[p] {
+			return true
+		}
+	}
+	for _, reg := range rl.Regs {
+		if contains(reg.Members, p) {
+			return true
+		}
+	}
+	for _, x := range rl.Calls {
+		if x.Caller == p || x.Callee == p {
+			return true
+		}
+	}
+	return false
+}
